@@ -1,6 +1,11 @@
 package ast
 
-import "github.com/jmeaster30/vore/libvore/ds"
+import (
+	"fmt"
+	"strings"
+
+	"github.com/jmeaster30/vore/libvore/ds"
+)
 
 // C08 (parser, regex sub-parser): every token sequence the lexer can produce and every regex body
 // yields commands or an error; never a panic, never an AST with holes.
@@ -206,6 +211,11 @@ func VerifC08Parse(prefix int, n int) {
 		tokens = append(tokens, c08Tok(TokenType(t), "1"))
 	}
 	tokens = append(tokens, c08Tok(EOF, ""))
+	if !vSymbolic() {
+		// native replay: through the source text and the real lexer, the way a caller reaches the parser
+		c08ViaSource(tokens)
+		return
+	}
 	for _, t := range pre {
 		desc += c08TokenName(t) + " "
 	}
@@ -276,6 +286,30 @@ func VerifC08Regex(prefix int, n int) {
 	}
 	body := c08RegexPrefixes[prefix] + string(b)
 	vNote("source", "@/"+body+"/")
+	if !vSymbolic() {
+		// native replay through the source text (see c08ViaSource)
+		src := "find all @/" + body + "/"
+		toks, lerr := initLexer(strings.NewReader(src)).getTokens()
+		ok := lerr == nil
+		var core []*Token
+		for _, t := range toks {
+			if t.TokenType != WS && t.TokenType != COMMENT && t.TokenType != EOF {
+				core = append(core, t)
+			}
+		}
+		if !ok || len(core) != 3 || core[2].TokenType != REGEXP || core[2].Lexeme != body {
+			fmt.Printf("VSOURCE the regex body cannot be spelled in a source (%q)\n", src)
+			return
+		}
+		fmt.Printf("VSOURCE %q\n", src)
+		a, perr := ParseReader(strings.NewReader(src))
+		if perr != nil {
+			_ = perr.Error()
+			return
+		}
+		c08WalkCommands(a.Commands())
+		return
+	}
 	tokens := []*Token{c08Tok(FIND, "find"), c08Tok(ALL, "all"), c08Tok(REGEXP, body), c08Tok(EOF, "")}
 	cmds, err := parse(tokens)
 	vReach("returned")
@@ -289,3 +323,58 @@ func VerifC08Regex(prefix int, n int) {
 var c08RegexPrefixes = []string{"", "a", "(", "(a", "(?", "(?<n", "[", "[a", "[a-", "a{", "a{1", "a{1,", "a{1,2", "\\", "\\k", "\\k<n", "a|", "(a)|", "(?:a", "[^", "a*", "a+?", "(a)\\1", "(?<n>a)\\k<n"}
 
 func VerifC08RegexPrefixCount() int { return len(c08RegexPrefixes) }
+
+// ---- native confirmation through the source ----
+// The token-level harness hands the parser token lists directly. The property is about source texts, and
+// a parser may rely on what the lexer guarantees, so a token-level failure is only a lead: the native replay
+// spells the token list as a source text, checks that the real lexer turns it back into the same list
+// (modulo blanks and comments), and runs the real ParseReader on it. Only a crash, a hang or a hole seen
+// there confirms the lead.
+
+var c08Spelling = map[TokenType]string{WS: " ", COMMENT: "--(c)--", IDENTIFIER: "x", NUMBER: "1", STRING: "'1'", REGEXP: "@/1/",
+	EQUAL: "=", COLONEQ: ":=", COMMA: ",", OPENPAREN: "(", CLOSEPAREN: ")", OPENCURLY: "{", CLOSECURLY: "}", PLUS: "+", MINUS: "-",
+	MULT: "*", DIV: "/", LESS: "<", GREATER: ">", LESSEQ: "<=", GREATEREQ: ">=", DEQUAL: "==", NEQUAL: "!=", MOD: "%"}
+
+func c08ViaSource(tokens []*Token) {
+	src := ""
+	var want []TokenType
+	for _, t := range tokens {
+		if t.TokenType == EOF {
+			break
+		}
+		sp, ok := c08Spelling[t.TokenType]
+		if !ok {
+			sp = strings.ToLower(t.TokenType.PP())
+		}
+		src += sp + " "
+		if t.TokenType != WS && t.TokenType != COMMENT {
+			want = append(want, t.TokenType)
+		}
+	}
+	toks, err := initLexer(strings.NewReader(src)).getTokens()
+	if err != nil {
+		fmt.Printf("VSOURCE the token list cannot be spelled as a source (%q does not lex)\n", src)
+		return
+	}
+	var got []TokenType
+	for _, t := range toks {
+		if t.TokenType != WS && t.TokenType != COMMENT && t.TokenType != EOF {
+			got = append(got, t.TokenType)
+		}
+	}
+	same := len(got) == len(want)
+	for i := 0; same && i < len(got); i++ {
+		same = got[i] == want[i]
+	}
+	if !same {
+		fmt.Printf("VSOURCE the token list cannot be spelled as a source (%q lexes to other tokens)\n", src)
+		return
+	}
+	fmt.Printf("VSOURCE %q\n", src)
+	a, perr := ParseReader(strings.NewReader(src))
+	if perr != nil {
+		_ = perr.Error()
+		return
+	}
+	c08WalkCommands(a.Commands())
+}
